@@ -91,20 +91,23 @@ let geometry spec =
     (c, b, n, bpp, rowlen)
   | _ -> failwith "bad geometry"
 
-(* g3:<cols>:<eol>:<align>:<blackis1>:<ignore_eob>:<maxrows> *)
+(* the row limit FilterCCITTFax.toParams derives from /Columns and /Rows *)
+let max_rows cols rows = nat_of_int (int_of_z (CCITTParams.ccitt_max_rows (z_of_string cols) (z_of_string rows)))
+
+(* g3:<cols>:<eol>:<align>:<blackis1>:<ignore_eob>:<Rows> *)
 let g3_params spec =
   match Stdlib.String.split_on_char ':' spec with
   | [_; cols; eol; al; bi1; ieob; mr] ->
     { CCITT.g_cols = n_of_int (int_of_string cols); g_eol = (eol = "1"); g_align = (al = "1");
-      g_blackis1 = (bi1 = "1"); g_ignore_eob = (ieob = "1"); g_maxrows = nat_of_int (int_of_string mr) }
+      g_blackis1 = (bi1 = "1"); g_ignore_eob = (ieob = "1"); g_maxrows = max_rows cols mr }
   | _ -> failwith "bad g3 parameters"
 
-(* g4:<cols>:<align>:<blackis1>:<ignore_eob>:<maxrows>   (CCITTFax, K < 0) *)
+(* g4:<cols>:<align>:<blackis1>:<ignore_eob>:<Rows>   (CCITTFax, K < 0) *)
 let g4_params spec =
   match Stdlib.String.split_on_char ':' spec with
   | [_; cols; al; bi1; ieob; mr] ->
     { CCITT.g_cols = n_of_int (int_of_string cols); g_eol = false; g_align = (al = "1");
-      g_blackis1 = (bi1 = "1"); g_ignore_eob = (ieob = "1"); g_maxrows = nat_of_int (int_of_string mr) }
+      g_blackis1 = (bi1 = "1"); g_ignore_eob = (ieob = "1"); g_maxrows = max_rows cols mr }
   | _ -> failwith "bad g4 parameters"
 
 let starts_with p s =
@@ -180,6 +183,11 @@ let () =
           let d = FilterParams.ccitt_to_dict c in
           Printf.printf "%s valid=1 dict=%s eff=%s\n" id (show_dict d) (show_ccitt (FilterParams.parse_ccitt d))
         else Printf.printf "%s valid=0\n" id
+      | [id; "R"; cols; rows; n] ->
+        (* does the CCITT writer accept n rows for /Columns cols, /Rows rows? *)
+        let p = { CCITT.g_cols = n_of_int (int_of_string cols); g_eol = false; g_align = false; g_blackis1 = false;
+                  g_ignore_eob = false; g_maxrows = max_rows cols rows } in
+        Printf.printf "%s %s\n" id (if CCITTParams.rows_accepted p (nat_of_int (int_of_string n)) then "accept" else "refuse")
       | [id; "QF"; d] -> Printf.printf "%s %s\n" id (show_flate (FilterParams.parse_flate (parse_dict d)))
       | [id; "QL"; d] -> Printf.printf "%s %s\n" id (show_lzw (FilterParams.parse_lzw (parse_dict d)))
       | [id; "QC"; d] -> Printf.printf "%s %s\n" id (show_ccitt (FilterParams.parse_ccitt (parse_dict d)))
